@@ -132,7 +132,8 @@ func (nw *Network) call(from *SimNode, targetAddr, kind string, args interface{}
 		return err
 	}
 	target := c.byAddr[targetAddr]
-	if target == nil || !target.running() {
+	if target == nil || !target.running() || target.maintenance {
+		// (a node in maintenance mode opens no transport)
 		c.stats.fault("target-down")
 		return errRefused
 	}
